@@ -934,6 +934,9 @@ func (cs *connState) buildGet(w *world, d caseDesc, rnd *rand.Rand) *request {
 			{"?id=-1.-1", true}, {"?id=" + good + ",", false}, {"?id=,", false}, {"?id=" + good + "&id=1.3", false}, {"?id=" + long.String(), false},
 			{"?id=%zz", true}, {"?id=" + good + ";meta=1", false}, {"?id=" + good + "&meta=1&perms=1&type=1&ev=1", false}, {"?id=%00.%00", true},
 			{"?id=1e3.2", false}, {"?id=0x1.0x2", false}, {"?id=.", false}, {"?id=" + good + ".", false}, {"?ID=" + good, true}, {"?id=+1.+9", false},
+			// the optional parameters of a read together with ids the accessory does not have (alone, first, last)
+			{"?id=1.99999&meta=1&perms=1&type=1&ev=1", false}, {"?id=99.1&type=1", false}, {"?id=" + good + ",1.99999&perms=1", false}, {"?id=1.99999," + good + "&type=1&meta=1", false},
+			{"?id=" + good + ",77.77&ev=1", false}, {"?type=1&perms=1&id=0.0", false},
 			{"?id=" + strings.Repeat("9", 400) + ".1", true}, {"?id=1.9999999999999999999999", true}, {"?" + strings.Repeat("a=b&", 2000) + "id=" + good, false},
 		}
 		v := arg % len(qs)
